@@ -267,7 +267,7 @@ func (c *Ctx) LoopDecodeTargets(pkgs ...string) []core.Ob {
 // return from its body.
 func (c *Ctx) RegionFindSpace() []core.Ob {
 	o := core.Ob{Rule: "R-ORDER", Key: "region:findSpace:checks-every-needed-sector", Armed: true, Status: core.OK,
-		Want: "the free-space search leaves its sector-counting loop only when the counter has reached the number of sectors needed (no other exit from the loop body): a position is accepted only if every sector it would cover was looked up"}
+		Want: "the free-space search leaves its sector-counting loop only when the counter has reached the number of sectors needed (no other exit from the loop body that can reach a return without counting anew): a position is accepted only if every sector it would cover was looked up"}
 	var found *ssa.Function
 	for _, fn := range methodsOfType(c, "save/region.Region") {
 		if len(fn.Params) < 2 {
@@ -307,7 +307,21 @@ func (c *Ctx) RegionFindSpace() []core.Ob {
 					continue
 				}
 				for _, s := range b.Succs {
-					if !lp.body[s] {
+					if lp.body[s] {
+						continue
+					}
+					// leaving the count to start it again somewhere else (`continue outer`) accepts nothing:
+					// only an exit from which the function can return without counting anew does
+					accepts := false
+					for _, rb := range fn.Blocks {
+						if len(rb.Instrs) == 0 {
+							continue
+						}
+						if _, isRet := rb.Instrs[len(rb.Instrs)-1].(*ssa.Return); isRet && (s == rb || blockReachesAvoiding(s, rb, lp.header)) {
+							accepts = true
+						}
+					}
+					if accepts {
 						o.Status, o.Got = core.Violated, "the loop body leaves the search loop (break/return) before the counter reaches the number of sectors needed: sectors that were never looked up are taken to be free"
 						o.Pos = c.P.Pos(b.Instrs[len(b.Instrs)-1].Pos())
 					}
